@@ -254,6 +254,34 @@ def run(ctx):
                 texts.append("(vector-set! #(1 2) 0 '|%s|)" % body)
     b, sk = run_stage(ctx, texts, "messages", with_text=False)
     ctx.stage("messages", texts=len(texts), rejected=b, outside_claim=sk)
+    # ---- macros whose expansion is itself a definition of syntax or of a variable, uses inside uses, redefinition of a
+    # macro by its own expansion, macros used before/after redefinition: the expander works on the table it is reading
+    mac = ["(define-syntax m (syntax-rules () ((m) (define-syntax k (syntax-rules () ((k) 1)))))) (m) (k)",
+           "(define-syntax m (syntax-rules () ((m x) (define x 1)))) (m y) y",
+           "(define-syntax m (syntax-rules () ((m) (define-syntax m (syntax-rules () ((m) 2)))))) (m) (m)",
+           "(define-syntax m (syntax-rules () ((m a) (let ((t a)) (m2 t))))) (define-syntax m2 (syntax-rules () ((m2 b) (list b)))) (m 1)",
+           "(define-syntax m (syntax-rules () ((m) (begin (define-syntax inner (syntax-rules () ((inner) 3))) (inner))))) (m)",
+           "(let () (define-syntax loc (syntax-rules () ((loc) 4))) (loc))",
+           "(define (f) (define-syntax loc (syntax-rules () ((loc) 5))) (loc)) (f)",
+           "(define-syntax m (syntax-rules () ((m) (m)))) 1",
+           "(define-syntax when (syntax-rules () ((when c) c))) (when 1)",
+           "(define-syntax m (syntax-rules () ((m) (import (scheme base))))) (m)",
+           "(define-syntax m (syntax-rules () ((m) (define-syntax)))) (m)",
+           "(define-syntax m (syntax-rules (k) ((m k) (define-syntax k (syntax-rules () ((k) 6)))))) (m k) (k)",
+           "(define-syntax define-getter (syntax-rules () ((define-getter name v) (define-syntax name (syntax-rules () ((name) v)))))) (define-getter seven 7) (seven)"]
+    b, sk = run_stage(ctx, mac, "macro-defining-macros", with_text=False)
+    ctx.stage("macro-defining-macros", texts=len(mac), rejected=b, outside_claim=sk)
+    # ---- bodies without an expression (empty, or definitions only) in every form that has a body, DEFINED AND THEN USED:
+    # whatever the parser lets through, running it must not crash
+    bodies = ["", "(define y 1)", "(define y 1) (define z y)", "(define-syntax s (syntax-rules () ((s) 1)))"]
+    shapes = [("(define (f) %s)", "(f)"), ("(define (f x) %s)", "(f 1)"), ("(define (f . r) %s)", "(f 1 2)"), ("(define f (lambda () %s))", "(f)"),
+              ("(define f (lambda (x) %s))", "(f 1)"), ("(define f (lambda r %s))", "(f)"), ("(let () %s)", "1"), ("(let ((x 1)) %s)", "1"), ("(let* ((x 1) (w x)) %s)", "1"),
+              ("((lambda () %s))", "1"), ("((lambda (x) %s) 1)", "1"), ("(when #t %s)", "1"), ("(unless #f %s)", "1"), ("(begin %s)", "1"), ("(cond (#t %s))", "1"),
+              ("(cond (else %s))", "1"), ("(case 1 ((1) %s))", "1"), ("(case 1 (else %s))", "1"), ("(define (f) (define (g) %s) (g))", "(f)"), ("(map (lambda (q) %s) '(1 2))", "1"),
+              ("(apply (lambda () %s) '())", "1"), ("(define-syntax mm (syntax-rules () ((mm) (lambda () %s)))) (define f (mm))", "(f)")]
+    texts = ["%s %s %s" % (d % b, u, u) for (d, u) in shapes for b in bodies]
+    b, sk = run_stage(ctx, texts, "empty-bodies", with_text=False)
+    ctx.stage("empty-bodies", texts=len(texts), rejected=b, outside_claim=sk)
     # ---- every builtin on boundary operands: the extreme exact integers, ratios with extreme components, zero of both
     # signs, huge and tiny reals, and a few non-numbers - a value or a reported error, never a crash
     nums = ["-2147483648", "-2147483647", "-1", "0", "1", "2", "2147483647", "65536", "46341", "-1/2", "1/2147483647", "-2147483648/3", "2147483647/2",
